@@ -10,3 +10,7 @@ pub mod common;
 mod warmup;
 #[cfg(kani)]
 mod c16;
+#[cfg(kani)]
+mod c03;
+#[cfg(kani)]
+mod gen;
